@@ -40,6 +40,7 @@ def run(ctx, rep) -> None:
     # histories with late echoes of the own patch and with deletions under foreign finalizers run to quiescence, too
     scs += H.gen_scenarios(ctx.seed, 40 if ctx.quick else 1500, 'consistency') + H.gen_scenarios(ctx.seed, 40 if ctx.quick else 1500, 'finalizer')
     scs += [sc_ for sc_ in H.gen_scenarios(0, 1600, 'finalizer') if sc_['id'] == 'finalizer-0-1507']        # the history in which F31 was found
+    scs += [sc_ for sc_ in H.gen_scenarios(4, 40, 'consistency') if sc_['id'] == 'consistency-4-32']          # ... and F21
     traces, verdicts = _family.run_traces(rep, scs, 'converge', nontrivial=lambda f: bool(f & FEATURES))
     tail = 0
     for t in traces:
